@@ -566,6 +566,13 @@ func c20Run(c c20Case, r *hx.Rec) error {
 	_ = copyDir(e.final, cliDir)
 	_ = copyDir(e.final, libDir)
 	verifyArgs := []string{"verify", "-l", layoutPath, "-k", verifyKeys, "-d", linkDir}
+	if c.Arg%2 == 1 {
+		// the keys one by one instead of a comma-separated list
+		verifyArgs = []string{"verify", "--layout", layoutPath, "--link-dir", linkDir}
+		for _, k := range strings.Split(verifyKeys, ",") {
+			verifyArgs = append(verifyArgs, "--layout-keys", k)
+		}
+	}
 	var inters [][]byte
 	if c.Intermediate == "cli" && c.Tamper != "no-intermediate" {
 		interFile := filepath.Join(e.keys, "intermediate.crt")
